@@ -12,6 +12,7 @@ Oracle     : an independent Python flattening on abstract selectors (string subs
 """
 import itertools
 import json
+import os
 import random
 import re
 
@@ -230,7 +231,17 @@ def run(tier):
     chk = C.Check(PROP, tier, 'proof')
     rng = random.Random(C.seed() * 86028121 + 2)
     build = C.lean_build(PROP)
-    missing = chk.set_proof(build, THEOREMS, 'cd lean && lake build Lessm.Props.C02 Lessm.Audit.C02 && lake env lean Lessm/Audit/C02.lean')
+    # second proof module: the other evaluator models (variables, media, mixins) are conservative extensions of this one
+    # (they agree with Lessm.Nest on sheets without their own constructs), so what is proved here is not contradicted there
+    b2 = C.lean_build('Cross', theorems_module='Lessm.Props.Cross', extract=False, need_driver=False)
+    build.ok = build.ok and b2.ok
+    build.log += '\n' + b2.log
+    build.axioms.update(b2.axioms)
+    build.failed_modules += b2.failed_modules
+    build.audit_problems += b2.audit_problems
+    cross = re.findall(r'#print axioms (\S+)', open(os.path.join(C.LEAN, 'Lessm', 'Audit', 'Cross.lean')).read())
+    missing = chk.set_proof(build, THEOREMS + cross, 'cd lean && lake build Lessm.Props.C02 Lessm.Audit.C02 Lessm.Props.Cross Lessm.Audit.Cross && '
+                            'lake env lean Lessm/Audit/C02.lean && lake env lean Lessm/Audit/Cross.lean')
     chk.cov['trusted_base'] = C.TRUSTED_BASE
     chk.cov['rule'] = ('catalogue: 3 parent lists x 32 child shapes x depth 1-3 (each under two random layouts) + random rule trees of depth <= 7 '
                        'with comma lists, leading combinators and & in any position. distinct by rendered source; non-trivial = depth >= 2 '
